@@ -208,7 +208,7 @@ def _drive(case, exact=False):
     import porepy as pp
 
     if exact:
-        float = lambda x: x if isinstance(x, fractions.Fraction) else fractions.Fraction(repr(x))  # noqa: E731,A001
+        float = lambda x: x if isinstance(x, fractions.Fraction) else fractions.Fraction(x)  # noqa: E731,A001
     else:
         import builtins
 
